@@ -114,6 +114,7 @@ type Interp struct {
 	inputRoots   []*Cell
 	PowApplied   []*ssa.Function
 	loopIter     map[*ssa.BasicBlock]int
+	inInit       bool
 	// TaintedLeafCalls counts (opaque mode) the generated primitives called with a secret-dependent operand
 	TaintedLeafCalls int
 	InitEvents   []Event
@@ -153,11 +154,13 @@ func New(p *load.Prog, cfg Config) *Interp {
 		it.Cfg.MaxSteps = 20_000_000
 	}
 	if !cfg.NoInit {
+		it.inInit = true
 		for _, sp := range p.ModSSA {
 			if init := sp.Func("init"); init != nil {
 				it.CallFn(init, nil)
 			}
 		}
+		it.inInit = false
 		it.journal = nil
 		it.Trace = nil
 		it.InitEvents = it.Events
@@ -446,7 +449,11 @@ func (fr *Frame) exec(blk, prev, stop *ssa.BasicBlock, phisDone bool) execResult
 					next = r.last // chosen successor
 				}
 			default:
-				fr.step(in)
+				if it.inInit && it.depth == 1 {
+					fr.stepTolerant(in)
+				} else {
+					fr.step(in)
+				}
 			}
 		}
 		if next == nil {
@@ -1528,4 +1535,29 @@ func isLenEquality(p *Term) bool {
 		n++
 	}
 	return n == 1
+}
+
+
+// stepTolerant executes one top-level instruction of a package initialiser. An initialiser expression the
+// interpreter cannot follow (or that panics in the abstract) makes the variable it initialises unknown instead of
+// ending the whole analysis: only a property that reads that variable is then affected.
+func (fr *Frame) stepTolerant(in ssa.Instruction) {
+	it := fr.it
+	depth := it.depth
+	mark := len(it.journal)
+	defer func() {
+		if e := recover(); e != nil {
+			why := DescribePanic(e)
+			if why == "" {
+				panic(e)
+			}
+			it.depth = depth
+			_ = mark
+			it.event("init-abort", fr.fn, in.Pos(), "package initialiser not followed (%s): the value it computes is unknown", why)
+			if v, ok := in.(ssa.Value); ok {
+				fr.regs[v] = Top{Why: "value of an initialiser the analysis could not follow"}
+			}
+		}
+	}()
+	fr.step(in)
 }
